@@ -163,6 +163,11 @@ class C13(Check):
                            'solver': 'euler' if stratum == 'S-fortran' else rng.choice(['euler', 'euler', 'heun']),
                            'outputs': {f'o{i}': n for i, n in enumerate(net.state_names)}})
                 ops.append({'wf': wid, 'op': 'run', 'obj': M, 'kw': kw})
+                if spec.get('build') == 'yaml' and stratum != 'S-fortran' and rng.random() < 0.35 \
+                        and not any(o['op'] == 'update_var' for o in ops):
+                    # pyrates.integrate(<template path>, ...): the FILE is simulated (whether the path cache still holds the
+                    # template or another workflow's clear dropped it) - only used while object and file say the same
+                    ops[-1]['via'] = 'integrate'
             else:
                 api = 'get_jacobian_func' if kind == 'jac' else 'get_run_func'
                 if kind == 'jac':
